@@ -8,8 +8,21 @@ use aelys_bytecode::object::{AelysArray, AelysVec};
 use aelys_common::error::{RuntimeError, RuntimeErrorKind};
 
 impl VM {
-    #[allow(unused_unsafe)]
+    /// Runs the frame the caller has just pushed until it returns.
+    /// On a runtime error that frame and everything above it is dropped again: a failed run
+    /// must not stay on the frame stack, where the next run (host calls push their frame
+    /// without clearing the stack) would return into it and resume it.
     pub fn run_fast(&mut self) -> Result<Value, RuntimeError> {
+        let entry_depth = self.frames.len().saturating_sub(1);
+        let result = self.run_frames();
+        if result.is_err() {
+            self.frames.truncate(entry_depth);
+        }
+        result
+    }
+
+    #[allow(unused_unsafe)]
+    fn run_frames(&mut self) -> Result<Value, RuntimeError> {
         if self.frames.is_empty() {
             return Ok(Value::null());
         }
